@@ -35,7 +35,10 @@ def obligations(tier):
         py('R1', 'r1_step', 'inductive step (read and write): invariant preserved, every byte accounted: d/L <= dt + d(debt); cap never forgives debt',
            'symbolic L >= 1, debt, d <= L/4, duration, overshoot <= eps'),
         py('R2', 'r2_bmc', f'{k}-call BMC: every window of calls obeys bytes <= L*T + (0.25+eps)*L', f'K={k}, L in {{4,1000,2^20,10^9}}', env={'VT_BMC_K': k}),
-        py('R3', 'r3_chunk_sites', 'chunk size chosen by snapshot/restore/upload/download satisfies 1 <= size <= L/4', 'L >= 4, N >= 1 unbounded integers'),
+        py('R3', 'r3_chunk_sites', 'every expression deriving a chunk size from rate_limit satisfies 1 <= size <= L/4', 'L >= 4, N >= 1 unbounded integers'),
+        Ob('R3e', 'E', 'chunk sizes the four commands really pass to the backend: 1 <= size <= L/4', '14 limits (4..10^9) x 5 concurrency values = 70',
+           ['replicat.repository:Repository.snapshot', 'replicat.repository:Repository.restore', 'replicat.repository:Repository.upload_objects',
+            'replicat.repository:Repository.download_objects'], module=H, func='r3e_commands', timeout=600),
         py('R5', 'r5_streams', 'two streams sharing the limiter: aggregate bound', '2 streams x 3 calls, L=1000', known={'F9': _known_f9}),
         Ob('R6', 'E', 'N streams with instantaneous I/O (no per-call credit): window bound under every interleaving of the pause sections; pause methods lifted as cooperative generators, virtual clock',
            'read/write x 2..4 streams x 4^4 schedule patterns x 6 calls each = 1536', FN[2:], module=H, func='r6_streams_instant', timeout=900, shards=4),
